@@ -142,7 +142,7 @@ pub const HOSTILE: [u8; 26] = [
 ];
 
 /// Tokens used for `TokenSubst` / `Insert`: every keyword and operator of the grammar plus boundary literals.
-pub const DICT: [&str; 104] = [
+pub const DICT: [&str; 108] = [
     "void", "char", "short", "int", "signed", "unsigned", "const", "inline", "interrupt", "bank1", "bank9", "superchip",
     "ramchip", "display", "aligned(256)", "reversed", "scattered(16,1)", "holeydma", "screencode", "nopagecross",
     "if", "else", "for", "while", "do", "switch", "case", "default", "break", "continue", "return", "goto", "asm",
@@ -153,6 +153,8 @@ pub const DICT: [&str; 104] = [
     // prototype-only names, void value used, wrong arity)
     "break;", "continue;", "return;", "return 1;", "goto nolabel;", "nolabel:", "case 1:", "default:", "undeclared_name",
     "undeclared_fn()", "main()", "X = main();", ", 0", "[0]", "[Y]", "void proto_only();", "proto_only();", "if (X)",
+    // large but representable sizes / values
+    "2000000000", "0x7fffffff", "-2147483648", "1000000",
 ];
 
 #[derive(Clone, Copy, Debug, PartialEq, Eq)]
